@@ -205,80 +205,6 @@ theorem clamp_if_ray (u : α) :
   · rw [min_eq_left (le_trans h.le zero_le_one)]
   · rw [max_eq_left (not_lt.mp h)]
 
-/-- Quadratic coefficient `a = v·v`. -/
-def sphA (l : LR3 α) : α := l.v.x * l.v.x + l.v.y * l.v.y + l.v.z * l.v.z
-/-- Quadratic coefficient `b = 2 v·(p − c)`. -/
-def sphB (l : LR3 α) (sp : SphereS α) : α :=
-  2 * (l.v.x * (l.p.x - sp.center.x) + l.v.y * (l.p.y - sp.center.y)
-    + l.v.z * (l.p.z - sp.center.z))
-/-- Quadratic coefficient `c = |c|² + |p|² − 2 c·p − r²`. -/
-def sphC (l : LR3 α) (sp : SphereS α) : α :=
-  sp.center.x * sp.center.x + sp.center.y * sp.center.y + sp.center.z * sp.center.z
-    + (l.p.x * l.p.x + l.p.y * l.p.y + l.p.z * l.p.z)
-    - 2 * (sp.center.x * l.p.x + sp.center.y * l.p.y + sp.center.z * l.p.z)
-    - sp.radius * sp.radius
-/-- Discriminant. -/
-def sphDisc (l : LR3 α) (sp : SphereS α) : α :=
-  sphB l sp * sphB l sp - 4 * sphA l * sphC l sp
-/-- The `+` root. -/
-def sphR1 (M : MathOps α) (l : LR3 α) (sp : SphereS α) : α :=
-  (-(sphB l sp) + M.sqrt (sphDisc l sp)) / (2 * sphA l)
-/-- The `−` root. -/
-def sphR2 (M : MathOps α) (l : LR3 α) (sp : SphereS α) : α :=
-  (-(sphB l sp) - M.sqrt (sphDisc l sp)) / (2 * sphA l)
-
-/-- Model of `intersect_line3d_sphere_*`. -/
-def sphPts (k : Rng) (M : MathOps α) (l : LR3 α) (sp : SphereS α) : List (V3 α) :=
-  if sphDisc l sp < 0 then []
-  else if k.clamp (sphR1 M l sp) = k.clamp (sphR2 M l sp) then [at3 l (k.clamp (sphR1 M l sp))]
-  else [at3 l (k.clamp (sphR1 M l sp)), at3 l (k.clamp (sphR2 M l sp))]
-
-theorem intersect_line3d_sphere_s_eq (M : MathOps α) (l : LR3 α) (sp : SphereS α) :
-    intersect_line3d_sphere_s M l sp = sphPts .seg M l sp := by
-  unfold intersect_line3d_sphere_s sphPts
-  simp only [clamp_if_seg, Rng.clamp, sphR1, sphR2, sphDisc, sphA, sphB, sphC, at3]
-  rfl
-
-theorem intersect_line3d_sphere_r_eq (M : MathOps α) (l : LR3 α) (sp : SphereS α) :
-    intersect_line3d_sphere_r M l sp = sphPts .ray M l sp := by
-  unfold intersect_line3d_sphere_r sphPts
-  simp only [clamp_if_ray, Rng.clamp, sphR1, sphR2, sphDisc, sphA, sphB, sphC, at3]
-  rfl
-
-/-- Squared distance of `l.p + t·l.v` from the sphere centre, minus `r²`, is the quadratic. -/
-theorem sphere_quadratic (l : LR3 α) (sp : SphereS α) (t : α) :
-    ((at3 l t).x - sp.center.x) * ((at3 l t).x - sp.center.x)
-      + ((at3 l t).y - sp.center.y) * ((at3 l t).y - sp.center.y)
-      + ((at3 l t).z - sp.center.z) * ((at3 l t).z - sp.center.z) - sp.radius * sp.radius
-      = sphA l * (t * t) + sphB l sp * t + sphC l sp := by
-  simp only [at3, sphA, sphB, sphC]; ring
-
-/-- Every listed point is `l.p + (clamp r)·l.v` for one of the two closed-form roots `r`. -/
-theorem mem_sphPts (k : Rng) (M : MathOps α) (l : LR3 α) (sp : SphereS α) (q : V3 α)
-    (h : q ∈ sphPts k M l sp) :
-    0 ≤ sphDisc l sp ∧ (q = at3 l (k.clamp (sphR1 M l sp)) ∨ q = at3 l (k.clamp (sphR2 M l sp))) := by
-  unfold sphPts at h
-  split_ifs at h with h1 h2
-  · simp at h
-  · simp only [List.mem_singleton] at h
-    exact ⟨not_lt.mp h1, Or.inl h⟩
-  · simp only [List.mem_cons, List.not_mem_nil, or_false] at h
-    exact ⟨not_lt.mp h1, h⟩
-
-theorem sphPts_mem_of_root (k : Rng) (M : MathOps α) (l : LR3 α) (sp : SphereS α)
-    (h0 : 0 ≤ sphDisc l sp) (t : α) (ht : k.ok t)
-    (hr : t = sphR1 M l sp ∨ t = sphR2 M l sp) : at3 l t ∈ sphPts k M l sp := by
-  unfold sphPts
-  rw [if_neg (not_lt.mpr h0)]
-  rcases hr with hr | hr
-  · rw [← hr, k.clamp_of_ok t ht]
-    split_ifs <;> simp
-  · rw [← hr, k.clamp_of_ok t ht]
-    split_ifs with h
-    · rw [h]; simp
-    · simp
-
-
 /-! ### Plane / plane -/
 
 /-- The point `c₁ n_a + c₂ n_b` built by `intersect_plane_plane` satisfies the first plane
@@ -302,78 +228,6 @@ theorem plane_plane_pt2 (na nb : V3 α) (ka kb : α)
   rw [div_mul_eq_mul_div, div_mul_eq_mul_div, ← add_div, div_eq_iff h]
   ring
 
-
-/-! ### Line / sphere: properties of the model -/
-
-/-- Sphere equation `|q − c|² = r²`, spelled out. -/
-def onSph (sp : SphereS α) (q : V3 α) : Prop :=
-  (q.x - sp.center.x) * (q.x - sp.center.x) + (q.y - sp.center.y) * (q.y - sp.center.y)
-    + (q.z - sp.center.z) * (q.z - sp.center.z) = sp.radius * sp.radius
-
-theorem onSph_at3_iff (l : LR3 α) (sp : SphereS α) (t : α) :
-    onSph sp (at3 l t) ↔ sphA l * (t * t) + sphB l sp * t + sphC l sp = 0 := by
-  rw [← sphere_quadratic, onSph, sub_eq_zero]
-
-theorem sphPts_on (k : Rng) (M : MathOps α) (l : LR3 α) (sp : SphereS α) (q : V3 α)
-    (h : q ∈ sphPts k M l sp) : k.On3 l q := by
-  rw [Rng.On3_iff]
-  obtain ⟨_, h | h⟩ := mem_sphPts k M l sp q h
-  · exact ⟨_, k.clamp_ok _, h⟩
-  · exact ⟨_, k.clamp_ok _, h⟩
-
-/-- Both closed-form roots are crossings of the carrier line with the sphere. -/
-theorem sph_roots_on (M : MathOps α) (l : LR3 α) (sp : SphereS α) (ha : sphA l ≠ 0)
-    (hs : M.sqrt (sphDisc l sp) * M.sqrt (sphDisc l sp) = sphDisc l sp) :
-    onSph sp (at3 l (sphR1 M l sp)) ∧ onSph sp (at3 l (sphR2 M l sp)) := by
-  rw [onSph_at3_iff, onSph_at3_iff]
-  exact ⟨(quadratic_root_iff _ _ _ _ _ ha hs).mpr (Or.inl rfl),
-    (quadratic_root_iff _ _ _ _ _ ha hs).mpr (Or.inr rfl)⟩
-
-/-- Every listed point is on the sphere, or is an end point produced by clamping. -/
-theorem sphPts_sphere_or_end (k : Rng) (M : MathOps α) (l : LR3 α) (sp : SphereS α) (q : V3 α)
-    (ha : sphA l ≠ 0)
-    (hs : 0 ≤ sphDisc l sp → M.sqrt (sphDisc l sp) * M.sqrt (sphDisc l sp) = sphDisc l sp)
-    (h : q ∈ sphPts k M l sp) :
-    onSph sp q ∨ q = at3 l 0 ∨ (k = .seg ∧ q = at3 l 1) := by
-  obtain ⟨h0, hq⟩ := mem_sphPts k M l sp q h
-  obtain ⟨r1, r2⟩ := sph_roots_on M l sp ha (hs h0)
-  have key : ∀ r, onSph sp (at3 l r) → q = at3 l (k.clamp r) →
-      onSph sp q ∨ q = at3 l 0 ∨ (k = .seg ∧ q = at3 l 1) := by
-    intro r hr hq
-    by_cases hok : k.ok r
-    · rw [k.clamp_of_ok r hok] at hq; left; rw [hq]; exact hr
-    · rcases k.clamp_of_not_ok r hok with h' | ⟨hk, h'⟩
-      · right; left; rw [hq, h']
-      · right; right; exact ⟨hk, by rw [hq, h']⟩
-  rcases hq with hq | hq
-  · exact key _ r1 hq
-  · exact key _ r2 hq
-
-/-- If every crossing of the carrier line with the sphere is inside the range, every listed
-point is on the sphere. -/
-theorem sphPts_sphere_of_inside (k : Rng) (M : MathOps α) (l : LR3 α) (sp : SphereS α)
-    (q : V3 α) (ha : sphA l ≠ 0)
-    (hs : 0 ≤ sphDisc l sp → M.sqrt (sphDisc l sp) * M.sqrt (sphDisc l sp) = sphDisc l sp)
-    (hin : ∀ t, onSph sp (at3 l t) → k.ok t)
-    (h : q ∈ sphPts k M l sp) : onSph sp q := by
-  obtain ⟨h0, hq⟩ := mem_sphPts k M l sp q h
-  obtain ⟨r1, r2⟩ := sph_roots_on M l sp ha (hs h0)
-  rcases hq with hq | hq
-  · rw [k.clamp_of_ok _ (hin _ r1)] at hq; rw [hq]; exact r1
-  · rw [k.clamp_of_ok _ (hin _ r2)] at hq; rw [hq]; exact r2
-
-/-- Every in-range crossing is listed. -/
-theorem sphPts_complete (k : Rng) (M : MathOps α) (l : LR3 α) (sp : SphereS α)
-    (ha : sphA l ≠ 0)
-    (hs : 0 ≤ sphDisc l sp → M.sqrt (sphDisc l sp) * M.sqrt (sphDisc l sp) = sphDisc l sp)
-    (t : α) (ht : k.ok t) (hsph : onSph sp (at3 l t)) : at3 l t ∈ sphPts k M l sp := by
-  rw [onSph_at3_iff] at hsph
-  have h0 : 0 ≤ sphDisc l sp := by
-    have : sphDisc l sp = (2 * sphA l * t + sphB l sp) * (2 * sphA l * t + sphB l sp) := by
-      simp only [sphDisc]; linear_combination (-4 * sphA l) * hsph
-    rw [this]; exact mul_self_nonneg _
-  exact sphPts_mem_of_root k M l sp h0 t ht
-    ((quadratic_root_iff _ _ _ _ _ ha (hs h0)).mp hsph)
 
 /-! ### Plane / sphere -/
 
